@@ -182,6 +182,12 @@ PoolB ==
         Method(307, "positions", <<Prm("byKey", Map(OnlyKeyT, List(OnlyElemT)))>>,
                List(Map(S_, Tuple(<<OnlyMemberT, I_>>))), "plain"),
         Method(308, "otherEmpty", <<Prm("e", EmptyBT)>>, List(EmptyBT), "plain"),
+        \* identifiers at the top of the 32-bit range (TLC integers are 32-bit signed: 2147483601.. stand for
+        \* 2^31, 2^31+1, .. and 2147483646 for 2^32-1; the harness maps them, see c18HighID)
+        Method(2147483647, "idMaxInt31", <<Prm("a", I_)>>, I_, "plain"),
+        Method(2147483601, "idTwoTo31", <<Prm("a", PointT)>>, S_, "plain"),
+        Signal(2147483602, "sigAbove31", <<Prm("P0", I_)>>, FALSE, "plain"),
+        Property(2147483646, "propMaxId", <<Prm("P0", S_)>>, FALSE, "plain"),
         Method(309, "stamps", <<Prm("a", StampT), Prm("b", stampT)>>, List(stampT), "plain"),
         Signal(310, "stamped", <<Prm("P0", stampT), Prm("P1", StampT)>>, FALSE, "plain"),
         Signal(302, "scalars", [k \in 1..15 |-> Prm("P" \o ToString(k - 1), Sc(ScalarSeq[k]))], FALSE, "plain"),
